@@ -143,6 +143,8 @@ def canon(x, depth=0, fs=None):
         return ("l",) + tuple(canon(y, depth + 1) for y in x)
     if isinstance(x, dict):
         return ("d",) + tuple(sorted(((repr(k), canon(v, depth + 1)) for k, v in x.items())))
+    if isinstance(x, OneShot):
+        return ("oneshot", tuple(x.items), x.taken)
     if isinstance(x, (Foreign, Writable)):
         d = dict((k, v) for k, v in x.__dict__.items() if not k.startswith("_"))
         return ("obj", type(x).__name__, canon(d, depth + 1))
@@ -168,7 +170,26 @@ def a_graph(k=0):
     return lena.structures.graph([[0, 1], [2 + k, 3]])
 
 
-COMMON_B = ["int", "float", "tuple", "foreign", "none", "pair-unrelated", "list", "pair-foreign"]
+COMMON_B = ["int", "float", "tuple", "foreign", "none", "pair-unrelated", "list", "pair-foreign",
+            "iterator", "pair-iterator"]
+
+
+class OneShot(object):
+    """a one-shot iterator as data (a generator, an open file): passing it on must not consume it"""
+
+    def __init__(self, items):
+        self.items = list(items)
+        self._it = iter(self.items)
+        self.taken = 0
+
+    def __iter__(self):
+        return self
+
+    def __next__(self):
+        v = next(self._it)
+        self.taken += 1
+        return v
+
 
 
 def common_b(kind, j, fs):
@@ -188,6 +209,10 @@ def common_b(kind, j, fs):
         return [j, j + 1]
     if kind == "pair-foreign":
         return (Foreign(j), {"plot": {"name": "f%d" % j}})
+    if kind == "iterator":
+        return OneShot([j, j + 1])
+    if kind == "pair-iterator":
+        return (OneShot([j, j + 1, j + 2]), {"info": {"j": j}})
     raise ValueError(kind)
 
 
@@ -306,10 +331,13 @@ TEMPLATE = "%% t\n\\input{\\VAR{ output.filepath }}\n%% \\VAR{ plot.name }"
 class ERender(El):
     name = "RenderLaTeX"
     a_kinds = ["csv", "csv-template-in-context"]
-    b_kinds = COMMON_B + ["str", "tex-typed", "pdf-typed", "hist-ctx", "write-false", "nondict-output"]
+    b_kinds = COMMON_B + ["str", "tex-typed", "pdf-typed", "hist-ctx", "write-false", "nondict-output",
+                          "filetype-csvx", "filetype-CSV"]
 
     def options(self, tape):
-        return {"verbose": 0}
+        # the template comes from the element's default, from context.output.template only
+        # (empty default), or from a callable that understands csv values only
+        return {"verbose": 0, "select": tape.choice(["default", "from-context", "callable"], "select_template")}
 
     def build(self, o, w):
         fs = w.fs
@@ -322,6 +350,13 @@ class ERender(El):
             except FileNotFoundError:
                 return None
         env = jinja2.Environment(loader=jinja2.FunctionLoader(load), **lena.output.jinja_syntax_latex)
+        if o.get("select") == "from-context":
+            return lena.output.RenderLaTeX(environment=env)
+        if o.get("select") == "callable":
+            def select(value):
+                # written for the values RenderLaTeX selects: fails on anything else
+                return value[1]["output"].get("template", "plot.tex")
+            return lena.output.RenderLaTeX(select, environment=env)
         return lena.output.RenderLaTeX("plot.tex", environment=env)
 
     def prepare(self, w, a_specs):
@@ -332,6 +367,8 @@ class ERender(El):
         ctx = {"output": {"filetype": "csv", "filepath": "out/a%d.csv" % i}, "plot": {"name": "a%d" % i}}
         if kind == "csv-template-in-context":
             ctx["output"]["template"] = "other.tex"
+        elif w.opts.get("select") == "from-context":
+            ctx["output"]["template"] = "plot.tex"
         return ("out/a%d.csv" % i, ctx)
 
     def make_b(self, kind, j, w):
@@ -347,6 +384,9 @@ class ERender(El):
             return ("x", {"output": {"write": False}})
         if kind == "nondict-output":
             return (j, {"output": "raw"})
+        if kind.startswith("filetype-"):
+            return ("out/b%d.csv" % j, {"output": {"filetype": kind[9:], "filepath": "out/b%d.csv" % j},
+                                        "plot": {"name": "b"}})
         return common_b(kind, j, w.fs)
 
 
@@ -354,7 +394,8 @@ class ELatex(El):
     name = "LaTeXToPDF"
     multiset = True
     a_kinds = ["tex-new", "tex-pdf-exists-changed", "tex-pdf-exists-unchanged", "tex-pdf-exists-nokey"]
-    b_kinds = COMMON_B + ["str", "csv-typed", "pdf-typed", "hist-ctx", "nondict-output"]
+    b_kinds = COMMON_B + ["str", "csv-typed", "pdf-typed", "hist-ctx", "nondict-output",
+                          "filetype-texinfo", "filetype-text", "filetype-TEX", "filetype-latex"]
 
     def options(self, tape):
         return {"overwrite": tape.chance(1, 5, "overwrite")}
@@ -389,13 +430,17 @@ class ELatex(El):
             return (hist1(j), {"output": {"filename": "tex"}})
         if kind == "nondict-output":
             return ("out/b%d.tex" % j, {"output": "tex"})
+        if kind.startswith("filetype-"):
+            # file types that merely resemble the selected one
+            return ("out/b%d.%s" % (j, kind[9:]), {"output": {"filetype": kind[9:], "changed": True}})
         return common_b(kind, j, w.fs)
 
 
 class EPng(El):
     name = "PDFToPNG"
     a_kinds = ["pdf-new", "pdf-png-exists-changed", "pdf-png-exists-unchanged", "pdf-png-exists-nokey"]
-    b_kinds = COMMON_B + ["str", "csv-typed", "tex-typed", "png-typed", "nondict-output"]
+    b_kinds = COMMON_B + ["str", "csv-typed", "tex-typed", "png-typed", "nondict-output",
+                          "filetype-pdfa", "filetype-PDF", "filetype-xpdf"]
 
     def options(self, tape):
         return {"overwrite": tape.chance(1, 5, "overwrite"), "format": tape.choice(["png", "jpeg"], "format")}
@@ -431,6 +476,8 @@ class EPng(El):
             return ("out/b%d.png" % j, {"output": {"filetype": "png"}})
         if kind == "nondict-output":
             return ("out/b%d.pdf" % j, {"output": "pdf"})
+        if kind.startswith("filetype-"):
+            return ("out/b%d.%s" % (j, kind[9:]), {"output": {"filetype": kind[9:], "changed": True}})
         return common_b(kind, j, w.fs)
 
 
@@ -452,7 +499,8 @@ class EHistToGraph(El):
             return (hist1(i), {"plot": {"name": "a%d" % i}})
         if kind == "hist1-bare":
             return hist1(i)
-        if kind == "hist-ctx-bins":
+        if kind == "hist-ctx-bins" and not w.opts.get("scale"):
+            # (with scale=True lena cannot integrate bins that carry context: not this property's business)
             return (lena.structures.histogram([0, 1, 2], [(3 + i, {"cell": {"c": 1}}), (5, {"cell": {"c": 1}})]),
                     {"plot": {"name": "a%d" % i}})
         return (hist1(i), {"histogram": {"to_graph": True}})
